@@ -41,7 +41,42 @@ fn sig_time(bytes: &[u8]) -> Option<u32> {
     None
 }
 
-pub fn one_run(cfg: &gen_::Cfg, cfgid: &str, proc_name: &str, wd: &gen_::Workdir) -> Value {
+/// modification times recorded in the archive's own entry headers (newc field 6)
+fn cpio_mtimes(bytes: &[u8]) -> Option<Vec<u32>> {
+    let lay = rawhdr::layout(bytes)?;
+    let comp = lay.hdr.string(bytes, 1125).unwrap_or_else(|| "none".into());
+    let a = crate::pkgobs::decompress(&comp, &bytes[lay.payload_at..])?;
+    let hex8 = |at: usize| -> Option<u32> { u32::from_str_radix(std::str::from_utf8(a.get(at..at + 8)?).ok()?, 16).ok() };
+    let (mut at, mut out) = (0usize, vec![]);
+    for _ in 0..100000 {
+        let magic = a.get(at..at + 6)?;
+        if magic == b"07070X" {
+            return Some(out); // stripped entries carry no times
+        }
+        if magic != b"070701" && magic != b"070702" {
+            return None;
+        }
+        let (mtime, size, nsz) = (hex8(at + 46)?, hex8(at + 54)? as usize, hex8(at + 94)? as usize);
+        let name = a.get(at + 110..at + 110 + nsz.checked_sub(1)?)?;
+        if name == b"TRAILER!!!" {
+            return Some(out);
+        }
+        out.push(mtime);
+        at = (((at + 110 + nsz + 3) / 4 * 4) + size + 3) / 4 * 4;
+    }
+    None
+}
+
+/// `salt` moves every input file whose mtime lies after the source date to another time after the
+/// source date: such times are clamped away, so the output may not depend on them
+pub fn one_run(cfg: &gen_::Cfg, cfgid: &str, proc_name: &str, wd: &gen_::Workdir, salt: u32) -> Value {
+    let mut cfg = cfg.clone();
+    for f in cfg.files.iter_mut() {
+        if f.mtime > 1_600_000_000 {
+            f.mtime += salt * 977;
+        }
+    }
+    let cfg = &cfg;
     let r = guarded(|| -> Result<Value, rpm::Error> {
         let p = gen_::build(cfg, wd)?;
         let mut bytes = vec![];
@@ -54,6 +89,12 @@ pub fn one_run(cfg: &gen_::Cfg, cfgid: &str, proc_name: &str, wd: &gen_::Workdir
         if let Some(t) = sig_time(&bytes) {
             times.push(t);
         }
+        let header_times = times.len();
+        match cpio_mtimes(&bytes) {
+            Some(v) => times.extend(v),
+            None => times.push(u32::MAX), // an archive the scanner cannot read is reported as a late time
+        }
+        let _ = header_times;
         Ok(json!({"event":"Run","cfg":cfgid,"proc":proc_name,"bytes_sha256":hex(&Sha256::digest(&bytes)),
                   "times":times.iter().map(|t| json!([t >> 16, t & 0xFFFF])).collect::<Vec<_>>(),
                   "source_date":[1_600_000_000u32 >> 16, 1_600_000_000u32 & 0xFFFF],
@@ -72,7 +113,7 @@ pub fn run_child(args: &Args) {
     let idx = args.num("idx", 0);
     let cfg = make_cfg(seed, idx);
     let wd = gen_::Workdir::new(&format!("c11c{}", args.num("k", 0)));
-    let ev = one_run(&cfg, &format!("cfg{idx}"), &format!("child{}", args.num("k", 0)), &wd);
+    let ev = one_run(&cfg, &format!("cfg{idx}"), &format!("child{}", args.num("k", 0)), &wd, 3 + args.num("k", 0) as u32);
     println!("{}", ev);
 }
 
@@ -85,7 +126,7 @@ pub fn run(args: &Args) {
         let cfg = make_cfg(args.seed(), idx);
         let id = format!("cfg{idx}");
         for k in 0..3 {
-            t.emit(one_run(&cfg, &id, &format!("inproc{k}"), &wd));
+            t.emit(one_run(&cfg, &id, &format!("inproc{k}"), &wd, k));
         }
         let tzs = ["UTC", "Asia/Tokyo", "America/Los_Angeles", "Europe/Berlin"];
         for k in 0..3usize {
